@@ -267,3 +267,19 @@ func ZZ_C02_assign_2eni_2pods() {
 	// per shard (dual stack is covered with one pod on two interfaces and with two pods on one interface)
 	zzC02Body(2, 1, 1, 2, 2, true)
 }
+
+// C02 (an address is only bound to a pod while its interface is attached and
+// in use): the pool trim is the step that can take an interface out of use.
+// Arbitrary interface (IPv4 and IPv6 entries with arbitrary owners and
+// statuses, arbitrary surplus): afterwards no entry of either family that is
+// bound to a pod sits on an interface marked for deletion.
+// zz:repeat 64
+func ZZ_C02_bound_only_on_live_interface() {
+	eni, slots := zzENI("eni0", 2, 1+zz.Tier())
+	toDel := zz.IntRange("toDel", -1, 4)
+	releaseUnUsedIP(logr.Discard(), eni, toDel)
+	for _, s := range slots {
+		zz.Assert(zz.Implies(s.ip.PodID != "", eni.Status != aliyunClient.ENIStatusDeleting), "an address bound to a pod (IPv4 or IPv6) never sits on an interface the trim gave up")
+		zz.Assert(zz.Implies(s.ip.PodID != "", s.ip.Status != networkv1beta1.IPStatusDeleting || s.status == networkv1beta1.IPStatusDeleting), "an address bound to a pod is never newly marked for release")
+	}
+}
